@@ -219,7 +219,8 @@ def leaf_root_cases(run: Run, stream, n):
             else:
                 da, db = Document("<r/>"), Document("<r/>")
                 na, nb = da.root.append_children(a)[0].detach(), db.root.append_children(b)[0].detach()
-            equal = a == b and (kind != "pi" or ta == tb)
+            # what the two nodes hold (a parser strips the whitespace in front of a PI's content)
+            equal = na.content == nb.content and (kind != "pi" or na.target == nb.target)
             run.case(stream, case, not equal)
             run.count("leaf roots", kind)
             for x, y in ((na, nb), (nb, na)):
